@@ -178,6 +178,17 @@ def systematic():
         [task(views=[('A', M)], flt=('Has', 'D')), task(views=[('A', M)], flt=('Not', ('Has', 'D'))), task(views=[('A', 'OptMut'), ('B', Rf)], flt=('And', ('Not', ('Has', 'D')), ('Has', 'C'))), task(views=[('C', M)], flt=('Not', ('Has', 'A')))],
     ]
     scheds += parent
+    # degenerate shapes: empty schedule, single tasks, tasks without views (resources only)
+    misc = [
+        [],
+        [task(views=[('A', M)], has_id=True)],
+        [task(par=True, views=[('A', M), ('B', 'OptRef')])],
+        [task(res=[('RA', True)]), task(res=[('RB', True)])],
+        [task(res=[('RA', True)]), task(res=[('RA', False)]), task(res=[('RC', True)], views=[('A', Rf)])],
+        [task(par=True, res=[('RA', True)]), task(views=[('A', M)], res=[('RB', False)]), task(res=[('RA', True), ('RB', True)])],
+        [task(views=[('A', M)]), task(res=[('RA', True)]), task(views=[('A', M)])],
+    ]
+    scheds += misc
     for s in scheds:
         for t in s:
             assert valid(t), t
